@@ -16,7 +16,9 @@ META = {
         "~120 targeted errors that reach the invalid_* diagnostics, literal evaluation, the version check, macro bracket matching and "
         "tokenizer indentation errors, each wrapped by layout dimensions (k blank/comment lines before, statements before/after, inside a "
         "multi-line bracket with blank and comment lines inside the span, after a multi-line string, inside an indented block, with/without "
-        "final newline, CRLF), in exec and eval mode and with py_version=(3,8).  Oracle (predicate over the exception and the text, lines "
+        "final newline, CRLF), in exec and eval mode and with py_version=(3,8); G10 programs (tokens spanning several lines, multi-line call-macro "
+        "arguments) before/around faulty code; a fifth of the inputs is also written to ONE file per worker (rewritten for every case) and parsed "
+        "with parse_file, where the error text is re-read from the file.  Oracle (predicate over the exception and the text, lines "
         "split on '\\n'): msg and filename non-empty str; 1<=lineno<=nlines+1; 1<=offset<=len(line)+1; end position present and >= start; "
         "text is a str whose rstrip() starts with the reported source line's rstrip().  non-trivial = input has >=3 lines and the reported "
         "line is not line 1, or the span covers more than one line; distinct by (text, options)."
@@ -81,6 +83,45 @@ def oracle(src: str, e: SyntaxError):
     return probs
 
 
+_FILE = {}
+
+
+def check_file_entry(rec, case, src):
+    """the same record must be well-formed when the text comes from a file (error text is then re-read from the file):
+    one path per worker is rewritten for every case, as an editor saving the same file would"""
+    import os
+    import pathlib
+    import tempfile
+
+    from ..common import XonshParser, classify_exception, SoftTimeout, watchdog
+
+    if "\r" in src or "\x00" in src:
+        return
+    try:
+        data = src.encode("utf-8")
+    except UnicodeEncodeError:
+        return
+    if "path" not in _FILE:
+        _FILE["path"] = pathlib.Path(tempfile.mkdtemp(prefix="vf-c11-", dir=os.environ.get("VERIF_WORKER_TMP"))) / "edited.xsh"
+    p = _FILE["path"]
+    p.write_bytes(data)
+    try:
+        with watchdog():
+            XonshParser().parse_file(p)
+        return
+    except SoftTimeout:
+        return
+    except BaseException as e:  # noqa: BLE001
+        o = classify_exception(e)
+    if o.kind != "error":
+        return
+    rec.count("file-entry-errors")
+    probs = oracle(src, o.exc)
+    if probs:
+        e = o.exc
+        rec.fail(dict(case, entry="file"), f"{'+'.join(probs)}@{o.site}:file-entry", {"msg": str(e.msg)[:120], "lineno": e.lineno, "offset": e.offset, "end": [getattr(e, "end_lineno", None), getattr(e, "end_offset", None)], "text": (e.text if isinstance(e.text, str) else repr(e.text))[:120], "filename": e.filename, "class": type(e).__name__})
+
+
 def check(rec, case):
     src = case["src"]
     mode = case.get("mode", "exec")
@@ -104,6 +145,8 @@ def check(rec, case):
     for f in case.get("wrap", ()):
         labels.append(f"wrap:{f}")
     rec.case(case, nt, labels=labels, key=(src, mode, case.get("py_version")))
+    if case.get("file") and not opts and mode == "exec":
+        check_file_entry(rec, case, src)
     probs = oracle(src, e)
     if probs:
         rec.fail(case, f"{'+'.join(probs)}@{o.site}", {"msg": str(e.msg)[:120], "lineno": e.lineno, "offset": e.offset, "end": [getattr(e, "end_lineno", None), getattr(e, "end_offset", None)], "text": (e.text if isinstance(e.text, str) else repr(e.text))[:120], "filename": e.filename, "class": type(e).__name__})
@@ -165,9 +208,23 @@ def search(rec, ctx):
     def targeted(rnd):
         err = TARGETED[rnd.randrange(len(TARGETED))]
         body, feats = wrap(rnd, err)
-        check(rec, {"src": body, "stream": "targeted-wrapped", "wrap": feats})
+        check(rec, {"src": body, "stream": "targeted-wrapped", "wrap": feats, "file": rnd.random() < 0.25})
 
     drive(st.randoms(use_true_random=False), targeted, ctx.budget(6000, 120000), ctx.hseed("targeted"))
+
+    MACRO_LEADS = ["(a g!(x\n y\n z) b)\n", "r = f!(p,\n  [q,\n   r])\n", "with! c:\n    '''t\n    u'''\n    v\n"]
+
+    def multiline_tokens(rnd):
+        # G10: tokens spanning several physical lines (triple-quoted strings / f-strings with fields on later lines, debug
+        # fields laid out over lines) inside or before the faulty code; call macros with multi-line arguments
+        from ..gen import mltok
+
+        src, feats = mltok.program(rnd)
+        if rnd.random() < 0.2:
+            src = rnd.choice(MACRO_LEADS) + src
+        check(rec, {"src": src, "stream": "g10-multi-line-tokens", "wrap": feats, "file": rnd.random() < 0.3})
+
+    drive(st.randoms(use_true_random=False), multiline_tokens, ctx.budget(3000, 60000), ctx.hseed("mltok"))
 
     def mut(rnd):
         r = rnd.random()
@@ -178,7 +235,7 @@ def search(rec, ctx):
         else:
             base = PyGen(rnd, nonascii=rnd.random() < 0.2).program(3)
         src, op = mutate.mutate(rnd, base, xonsh=r >= 0.35 and r < 0.55, nasty=rnd.random() < 0.15)
-        check(rec, {"src": src, "stream": "mutation"})
+        check(rec, {"src": src, "stream": "mutation", "file": rnd.random() < 0.15})
 
     drive(st.randoms(use_true_random=False), mut, ctx.budget(12000, 300000), ctx.hseed("mut"))
 
